@@ -30,6 +30,11 @@ template <class T, class C, class A, class V>
 struct IsFlatSetT<amc::FlatSet<T, C, A, V> > : std::true_type {};
 
 template <class X>
+struct IsStdVecFlatSetT : std::false_type {};
+template <class T, class C, class A, class E2, class A2>
+struct IsStdVecFlatSetT<amc::FlatSet<T, C, A, std::vector<E2, A2> > > : std::true_type {};
+
+template <class X>
 struct SmallSetN;
 template <class T, uintmax_t N, class C, class A, class ST>
 struct SmallSetN<amc::SmallSet<T, N, C, A, ST> > {
@@ -39,6 +44,9 @@ struct SmallSetN<amc::SmallSet<T, N, C, A, ST> > {
   // extract(const_iterator) is absent (does not compile) for every FlatSet-backed SmallSet of the pinned tree: with pointer iterators
   // SmallSet has no toVecIt, with class-type iterators (std::vector-backed FlatSet) FlatSet::extract(const_iterator) const_casts an iterator
   static const bool no_extract_pos = flat || IsFlatSetT<ST>::value;
+  // libstdc++'s vector::insert(range) leaves moved-from elements behind after a throwing copy (its own, weaker guarantee): a SmallSet whose
+  // backing FlatSet sits on std::vector is not put under injected faults (same rule as in flatset_ops.inc)
+  static const bool backing_is_stdvec = IsStdVecFlatSetT<ST>::value;
 };
 
 template <class S, class SB>
@@ -55,6 +63,7 @@ class SmallSetInterp {
   static const long NB = SmallSetN<SB>::value;
   static const bool FLAT = SmallSetN<S>::flat;
   static const bool NO_EXTRACT_POS = SmallSetN<S>::no_extract_pos;
+  static const bool BACKING_STDVEC = SmallSetN<S>::backing_is_stdvec;
   static const bool COPYABLE = ET<E>::copyable;
 
   struct Slot {
